@@ -213,7 +213,7 @@ def covariance_datasets(rng, count):
         break
 
 
-RCA_KINDS = ('balanced', 'unbalanced', 'singleton-chunk', 'unknown-labels', 'unbalanced+unknown', 'gapped-ids', 'gapped-ids+unknown')
+RCA_KINDS = ('balanced', 'unbalanced', 'singleton-chunk', 'unknown-labels', 'unbalanced+unknown', 'gapped-ids', 'gapped-ids+unknown', 'two-chunks', 'three-chunks')
 
 
 def rca_datasets(rng, count):
@@ -225,6 +225,11 @@ def rca_datasets(rng, count):
     i += 1
     for attempt in range(40):
       nch = int(rng.randint(2, 7))
+      if kind in ('two-chunks', 'three-chunks'):
+        # few chunks: the between-chunk scatter has rank < d - 1, so the total-to-within ratio is tied (= 1) on a subspace of dimension >= 2;
+        # whitening must still hold after reduction (any basis of the tied subspace will do), only the retained DIRECTIONS are then not unique
+        nch = 2 if kind == 'two-chunks' else 3
+        d = max(d, nch + 2)
       if kind == 'balanced':
         sizes = [int(rng.randint(2, 7))] * nch
       else:
@@ -260,17 +265,18 @@ def rca_datasets(rng, count):
       if np.linalg.cond(C) > 1e4:
         continue
       ok = True
+      ties = kind in ('two-chunks', 'three-chunks')
       for T in (total_cov(X[chunks != -1]), total_cov(X)):
         if np.linalg.cond(T) > 1e5:
           ok = False
           break
         w, _ = gen_eig_desc(T, C)
-        if not separated(w, len(w)):
+        if not ties and not separated(w, len(w)):
           ok = False
       if not ok:
         continue
       made += 1
-      yield dict(kind=kind, d=d, sizes=sizes, unknown=n_unknown, X=X, chunks=chunks, C=C)
+      yield dict(kind=kind, d=d, sizes=sizes, unknown=n_unknown, X=X, chunks=chunks, C=C, ties=ties)
       break
 
 
@@ -439,6 +445,8 @@ def check_rca_reduced(ml, ds, ncomp):
   if not np.allclose(W, np.eye(ncomp), rtol=0, atol=1e-6):
     return bad('rca-whitening', 'within-chunk covariance of the transformed data is not the identity: max deviation %.3g'
                % np.abs(W - np.eye(ncomp)).max(), **inp)
+  if ds.get('ties'):
+    return None        # tied ratios: the retained directions are not unique, nothing more to compare
   P = projector_rows(L)
   devs = []
   # "total" variance: of the chunked points, or of all points -- the statement does not say; either is accepted
